@@ -12,7 +12,12 @@ FAMILIES = [
 RULE = ("replay: one generated all-module history (5 pools, 14 providers incl. a blocked recipient, LPPD, depth rewards in "
         "wallet and pool mode, epoch bucket payouts in both modes, ratio shifting (float code), liquidity protection, "
         "conflicting bridge claims with tied power, lock/burn, dispensation create/run/claim, margin open/close/"
-        "force-close + hook liquidations, registry/admin/bank messages) plus three directed histories (de-whitelisted "
+        "force-close + hook liquidations, registry/admin/bank messages; in every block 1-2 transactions that FAIL INSIDE a handler after "
+        "gas-charged work, for every module: dispensation create with an empty-coins output among many recipients / without funds, "
+        "run by a wrong runner, clp swap below minimum, remove/unlock more units than held, unpayable add/bucket, refused pool, "
+        "repeated or post-final bridge claims, unpayable burn, low-fee lock, margin opens refused (borrow too high, too small, "
+        "disabled pool), missing positions, privileged messages from users, two-message transactions whose second message "
+        "fails) plus three directed histories (de-whitelisted "
         "claimants with a three-way power tie; genesis providers without accounts paid by LPPD / by the epoch hook), "
         "each executed N times (N = 8 quick, 64 thorough) in fresh application instances, half of the re-executions in "
         "separate OS processes; one `chk allEqual` line per block (N app hashes), per block (N EndBlock validator/"
